@@ -81,7 +81,7 @@ Fixpoint accesses_out (t : stmt) : list string :=
 
 Definition is_lockop (t : stmt) : bool :=
   match t with Lock _ | Unlock _ | DeferUnlock _ => true | _ => false end.
-Definition is_io (t : stmt) : bool := match t with NetIO | BlockingRead _ => true | _ => false end.
+Definition is_io (t : stmt) : bool := match t with NetIO _ | BlockingRead _ => true | _ => false end.
 Definition is_panic (t : stmt) : bool := match t with Panic => true | _ => false end.
 
 Section Derive.
